@@ -25,6 +25,7 @@ import (
 	vc "github.com/renbou/grpcbridge/internal/zzverif/vcommon"
 	"google.golang.org/grpc"
 	"google.golang.org/grpc/credentials/insecure"
+	"google.golang.org/grpc/metadata"
 	"google.golang.org/grpc/reflection"
 	"google.golang.org/grpc/test/bufconn"
 	"google.golang.org/protobuf/proto"
@@ -96,6 +97,22 @@ func main() {
 			}()
 		}
 	}
+	// request metadata on most calls: a deadline, gateway-prefixed and plain headers (the filters and the deadline handling run
+	// on every call; with the default allow-lists nothing is forwarded, which is exactly when shared state is tempting)
+	hdrs := func(rr *vc.Rand, set func(k, v string)) {
+		if rr.Chance(70) {
+			set("Grpc-Timeout", rr.Pick([]string{"5S", "900m", "2000000u", "1M"}))
+		}
+		if rr.Chance(40) {
+			set("Grpc-Metadata-X-Req", "v")
+		}
+		if rr.Chance(40) {
+			set("Authorization", "Bearer t")
+		}
+		if rr.Chance(20) {
+			set("X-Bin-Bin", "QUJD")
+		}
+	}
 	body := `{"scalars":{"stringValue":"s","int32Value":5},"nonScalars":{"str2strMap":{"k":"v"}}}`
 	// transcoded HTTP
 	spawn(4, func(rr *vc.Rand) {
@@ -110,6 +127,7 @@ func main() {
 			method, b = "GET", ""
 		}
 		req, _ := http.NewRequest(method, hs.URL+url, strings.NewReader(b))
+		hdrs(rr, req.Header.Set)
 		if resp, err := hc.Do(req); err == nil {
 			io.Copy(io.Discard, resp.Body)
 			resp.Body.Close()
@@ -124,6 +142,7 @@ func main() {
 		copy(frame[5:], msg)
 		req, _ := http.NewRequest("POST", hs.URL+"/"+testpb.TestService_ServiceDesc.ServiceName+"/Echo", bytes.NewReader(frame))
 		req.Header.Set("Content-Type", "application/grpc-web+proto")
+		hdrs(rr, req.Header.Set)
 		if resp, err := hc.Do(req); err == nil {
 			io.Copy(io.Discard, resp.Body)
 			resp.Body.Close()
@@ -138,9 +157,15 @@ func main() {
 			protos, path = []string{"grpc-websockets"}, "/"+testpb.TestService_ServiceDesc.ServiceName+"/Echo"
 		}
 		d := websocket.Dialer{HandshakeTimeout: 2 * time.Second, Subprotocols: protos}
-		ws, _, err := d.Dial("ws"+strings.TrimPrefix(hs.URL, "http")+path, nil)
+		dh := http.Header{}
+		first := "content-type: application/grpc-web+proto\r\n"
+		hdrs(rr, func(k, v string) {
+			dh.Set(k, v)
+			first += strings.ToLower(k) + ": " + v + "\r\n"
+		})
+		ws, _, err := d.Dial("ws"+strings.TrimPrefix(hs.URL, "http")+path, dh)
 		if err == nil {
-			ws.WriteMessage(websocket.BinaryMessage, []byte("content-type: application/grpc-web+proto\r\n"))
+			ws.WriteMessage(websocket.BinaryMessage, []byte(first))
 			ws.WriteMessage(websocket.BinaryMessage, []byte{0, 0, 0, 0, 0, 0})
 			if rr.Bool() {
 				ws.WriteMessage(websocket.BinaryMessage, []byte{1})
@@ -159,6 +184,9 @@ func main() {
 	spawn(3, func(rr *vc.Rand) {
 		ctx, cancel := context.WithTimeout(context.Background(), time.Second)
 		defer cancel()
+		if rr.Chance(50) {
+			ctx = metadata.AppendToOutgoingContext(ctx, "x-req", "v", "authorization", "Bearer t")
+		}
 		switch rr.Intn(3) {
 		case 0:
 			client.Echo(ctx, &testpb.Combined{Scalars: &testpb.Scalars{StringValue: "g"}})
